@@ -55,6 +55,9 @@ pub struct Globals {
     pub bls_valid_mask: u8,
     pub bls_verdict: bool,
     pub bls_calls: u32,
+    // S6: proof-of-space quality model
+    pub pos_quality_some: bool,
+    pub cap_seen: usize,
 }
 
 pub static mut G: Globals = Globals {
@@ -79,6 +82,8 @@ pub static mut G: Globals = Globals {
     bls_valid_mask: 0,
     bls_verdict: false,
     bls_calls: 0,
+    pos_quality_some: false,
+    cap_seen: 0,
 };
 
 pub fn sha_new() -> Sha256 {
@@ -261,4 +266,23 @@ pub fn cache_aggregate_verify_stub<Pk: std::borrow::Borrow<chia_bls::PublicKey>,
         G.bls_calls += 1;
         G.bls_verdict
     }
+}
+
+/// S4 (trusted decoding): same token model, unchecked variant accepts a superset
+pub fn pk_from_bytes_unchecked_stub(bytes: &[u8; 48]) -> chia_bls::Result<chia_bls::PublicKey> {
+    Ok(pk_token(bytes))
+}
+
+/// S6: chia_pos2 proof validation is out of reach; its contract is "None when the proof
+/// does not validate". Nondeterministic per harness.
+pub fn pos_quality_stub(_p: &chia_protocol::ProofOfSpace) -> Option<chia_protocol::Bytes32> {
+    if unsafe { G.pos_quality_some } {
+        Some(chia_protocol::Bytes32::new([0x51; 32]))
+    } else {
+        None
+    }
+}
+
+pub fn pk_eq_stub(a: &chia_bls::PublicKey, b: &chia_bls::PublicKey) -> bool {
+    pk_bytes(a) == pk_bytes(b)
 }
